@@ -1,57 +1,16 @@
 (* The complete payload of an unfragmented call req / call res (property C06, fragment part
-   included): the model of reqResWriter -- newFragment (flags placeholder, message header,
-   checksum type, checksum placeholder), the fragmenting writer of Model/Frag.v, and
-   finish/flushFragment as laid out by Model/FragWire.v [enc_frag_payload] -- emits, for three
+   included): the model of reqResWriter (Model/CallWire.v [call_frames]) -- newFragment (flags
+   placeholder, message header, checksum type, checksum placeholder), the fragmenting writer of
+   Model/Frag.v, and finish/flushFragment as laid out by Model/FragWire.v [enc_frag_payload] --
+   emits, for three
    arguments that fit one fragment, exactly ONE frame whose bytes are those of the independent
    encoder Spec/ProtocolCall.v. *)
 From Coq Require Import ZArith List Bool Lia ZifyBool.
 From Verif Require Import Base.Wrap Base.Bytes Gen.GenConsts Gen.GenFrame Model.TypedBuf Model.Messages
-  Model.Crc Model.Frag Model.FragWire Spec.Protocol Spec.ProtocolCall Spec.FragSpec Spec.FragOk
+  Model.Crc Model.Frag Model.FragWire Model.CallWire Spec.Protocol Spec.ProtocolCall Spec.FragSpec Spec.FragOk
   Proofs.CodecP Proofs.FrameP Proofs.FragWP Proofs.FragWireP Proofs.CkP Proofs.FragRoundtrip.
 Import ListNotations.
 Local Open Scope Z_scope.
-
-(* ------------------------------------------------------------------ *)
-(* model of reqResWriter around the fragmenting writer                  *)
-(* ------------------------------------------------------------------ *)
-
-(* reqResWriter.newFragment on a pooled frame (payload capacity MaxFramePayloadSize):
-   DeferByte (flags), message.write, WriteSingleByte(checksum type), DeferBytes(checksum size);
-   returns wbuf.Err().  Some (message header bytes, BytesRemaining) or None = error. *)
-Definition new_fragment (body : wbuf -> wbuf) (ck : ckst) : option (list Z * Z) :=
-  let w1 := body (mkW [0] (c_MaxFramePayloadSize - 1) 0) in
-  let w2 := w_bytes (repeat 0 (Z.to_nat (ck_size ck))) (w_u8 (ck_typecode ck) w1) in
-  if werr w2 =? 0 then Some (skipn 1 (wout w1), wroom w2) else None.
-
-(* flushFragment (Header.SetPayloadSize(uint16(BytesWritten)), type, id) + Frame.WriteOut *)
-Definition frag_frame (mt id : Z) (payload : list Z) : list Z :=
-  frame_out (mkFH (SetPayloadSize (wrapU 16 (zlen payload))) mt 0 id) payload.
-
-(* a call written through reqResWriter with the writer script [ops]: the frames put on the
-   wire.  [mt]/[mtc] = message type of the initial / the continuation fragments, [body] = the
-   initial message's write function; continuation messages have an empty body.
-   None = checksum type out of range, newFragment failed, the writer panicked or an operation
-   returned an error. *)
-Definition call_frames (mt mtc id : Z) (body : wbuf -> wbuf) (kind : Z) (ops : list wop) : option (list (list Z)) :=
-  match ck_new kind with
-  | None => None
-  | Some ck =>
-      match new_fragment body ck, new_fragment w_nop ck with
-      | Some (hdr, cap1), Some (_, capc) =>
-          match w_run (fun initial : bool => if initial then cap1 else capc) ops (Frag.w_init ck) [] with
-          | Some (codes, st) =>
-              if forallb (Z.eqb 0) codes then
-                match ws_out st with
-                | [] => Some []
-                | f :: r => Some (frag_frame mt id (enc_frag_payload hdr f)
-                                  :: map (fun g => frag_frame mtc id (enc_frag_payload [] g)) r)
-                end
-              else None
-          | None => None
-          end
-      | _, _ => None
-      end
-  end.
 
 (* ------------------------------------------------------------------ *)
 (* newFragment leaves exactly frag_capacity bytes for chunks             *)
@@ -173,6 +132,9 @@ Section Single.
     rewrite !ck_add_app, !ck_add_typecode. reflexivity.
   Qed.
 End Single.
+
+Lemma ops3_script a1 a2 a3 : ops3 a1 a2 a3 = script3 [IWrite a1] [IWrite a2] [IWrite a3].
+Proof. reflexivity. Qed.
 
 (* the second clause of [fits_one] is needed: exact fit with an empty arg3 gives two fragments *)
 Example writer_exact_fit_two :
